@@ -49,9 +49,10 @@ class UseWalrusIf(SimpleCodemod, NameResolutionMixin):
         self.assigns = {}
 
     def _build_named_expr(self, target, value, parens=True):
-        if isinstance(value, cst.Tuple) and not value.lpar:
+        if isinstance(value, cst.Tuple | cst.Yield) and not value.lpar:
             # `x = a, b` assigns a tuple; in `x := a, b` the walrus would only bind `a`
-            # (and without parens the expression is not valid in an `if` test)
+            # (and without parens the expression is not valid in an `if` test).
+            # `x = yield` is only valid as `x := (yield)`.
             value = value.with_changes(lpar=[cst.LeftParen()], rpar=[cst.RightParen()])
         return cst.NamedExpr(
             target=target,
